@@ -9,6 +9,13 @@ import (
 	"strings"
 )
 
+func types_exprString(e *ast.SelectorExpr) string {
+	if x, ok := e.X.(*ast.Ident); ok {
+		return x.Name + "." + e.Sel.Name
+	}
+	return "?." + e.Sel.Name
+}
+
 // Dump: the facts of db19/tools/dump.go, load.go, compact.go the C20 theorems mention:
 // version strings, the section prefix written by dumpTable2 and the prefixes load expects, the
 // views header, the shifts of writeInt, the deleted-column mark of squeeze, and when dump /
@@ -194,6 +201,32 @@ func init() {
 			return fmt.Errorf("LoadDatabase: close(channel) / wg.Wait() / errVal check not found (%d %d %d)", closeAt, waitAt, errAt)
 		}
 		fmt.Fprintf(out, "def waitBeforeErrCheck : Bool := %v\n", waitAt < errAt)
+		// LoadDatabase: how a section is recognised as the views section:
+		// strings.HasPrefix(<what>, "<literal>") in the condition of an if statement
+		viewsTest := ""
+		ast.Inspect(l.fn("LoadDatabase").Body, func(n ast.Node) bool {
+			is, ok := n.(*ast.IfStmt)
+			if !ok {
+				return true
+			}
+			if ce, ok := is.Cond.(*ast.CallExpr); ok && isCallTo(ce, "HasPrefix") && len(ce.Args) == 2 {
+				if lit, ok := strLit(ce.Args[1]); ok && strings.HasPrefix(lit, "view") {
+					what := "?"
+					switch a := ce.Args[0].(type) {
+					case *ast.Ident:
+						what = a.Name
+					case *ast.SelectorExpr:
+						what = types_exprString(a)
+					}
+					viewsTest = what + "|" + lit
+				}
+			}
+			return true
+		})
+		if viewsTest == "" {
+			return fmt.Errorf("LoadDatabase: test for the views section not found")
+		}
+		fmt.Fprintf(out, "def viewsSectionTest : String := %s\n", leanStr(viewsTest))
 		out.WriteString("\nend Gsu.Gen.Dump\n")
 		return nil
 	})
